@@ -58,6 +58,8 @@ type FuncContract struct {
 	Recv     *Param
 	Requires []Clause
 	Ensures  []Clause
+	Assumes  []Clause // post-conditions callers may use but which are not proved (listed as assumptions)
+	Epilogue []Clause // ghost assignments executed at every return (ghost code of the function)
 	Modifies []string
 	Safety   []string // property tags under which panic-freedom obligations are claimed
 	Term     []string // property tags for termination (decreases) obligations
@@ -167,6 +169,7 @@ type Contracts struct {
 	Chans  []*ChanDecl
 	Ghosts map[string]*GhostDecl
 	GhostFields map[string]string  // name -> type: ghost attributes of objects (arrays GF_<name>)
+	Unscoped    map[string][]string // pkgpath::key -> property tags: functions outside a discipline sweep
 	Globals map[string]*GlobalDecl // pkgpath.Name
 	forallNames map[string]bool
 	Files  []string
@@ -175,7 +178,7 @@ type Contracts struct {
 
 func newContracts() *Contracts {
 	return &Contracts{Funcs: map[string]*FuncContract{}, Specs: map[string]*SpecFn{}, Lemmas: map[string]*Lemma{},
-		Ifaces: map[string]*IfaceContract{}, Ghosts: map[string]*GhostDecl{}, GhostFields: map[string]string{}, Globals: map[string]*GlobalDecl{}, Sha: map[string]string{}}
+		Ifaces: map[string]*IfaceContract{}, Ghosts: map[string]*GhostDecl{}, GhostFields: map[string]string{}, Unscoped: map[string][]string{}, Globals: map[string]*GlobalDecl{}, Sha: map[string]string{}}
 }
 
 type cline struct {
@@ -304,12 +307,12 @@ func matchParen(s string, i int) int {
 }
 
 var topKeywords = map[string]bool{"func": true, "closure": true, "spec": true, "lemma": true, "interface": true,
-	"field": true, "chan": true, "ghost": true, "axiom": true, "global": true, "ghostfield": true}
+	"field": true, "chan": true, "ghost": true, "axiom": true, "global": true, "ghostfield": true, "unscoped": true}
 
 var clauseKeywords = map[string]bool{"requires": true, "ensures": true, "modifies": true, "safety": true, "pure": true,
 	"inline": true, "may_panic": true, "witness": true, "lemma": true, "role": true, "holds": true, "acquires": true,
 	"decreases": true, "loop": true, "invariant": true, "unfold": true, "method": true, "reads": true, "trusted": true,
-	"assumed": true, "terminates": true, "call": true, "hint": true, "anchor": true, "reveal": true, "assert": true, "after": true, "forall": true, "inst": true, "callback": true}
+	"assumed": true, "terminates": true, "call": true, "hint": true, "anchor": true, "reveal": true, "assert": true, "after": true, "forall": true, "inst": true, "callback": true, "assumes": true, "epilogue": true}
 
 func firstWord(s string) string {
 	s = strings.TrimSpace(s)
@@ -461,6 +464,13 @@ func (cs *Contracts) parseFuncClauses2(fc *FuncContract, loop *LoopSpec, call *C
 		fc.Requires = append(fc.Requires, mk("requires"))
 	case "ensures":
 		fc.Ensures = append(fc.Ensures, mk("ensures"))
+	case "assumes":
+		fc.Assumes = append(fc.Assumes, mk("assumes"))
+	case "epilogue":
+		k := strings.Index(rest, "=")
+		name := strings.TrimSpace(rest[:k])
+		body := strings.TrimSpace(rest[k+1:])
+		fc.Epilogue = append(fc.Epilogue, Clause{Kind: "epilogue", Name: name, Text: body, Expr: parseExprAt(body, path, l.line), File: path, Line: l.line})
 	case "invariant":
 		if loop == nil {
 			fatalf("%s:%d: invariant outside loop", path, l.line)
@@ -795,6 +805,13 @@ func (cs *Contracts) parseBlock(b []cline, path, pkgPath string) {
 	case "ghostfield":
 		f := strings.Fields(rest)
 		cs.GhostFields[f[0]] = f[1]
+	case "unscoped":
+		tags, _, body := parseTagged(rest)
+		for _, k := range splitTop(body, ',') {
+			if k != "" {
+				cs.Unscoped[pkgPath+"::"+k] = tags
+			}
+		}
 	case "ghost":
 		f := strings.Fields(rest)
 		g := &GhostDecl{Name: f[0], Type: f[1]}
